@@ -175,6 +175,23 @@ func genNeutralStmt(r *rand.Rand, n int, emit func(args ...string)) {
 	for _, f := range fixed {
 		emit(encStr(f[0]), encStr(f[1]))
 	}
+	// long batches of one statement (continuous-query style workloads send hundreds of statements in one
+	// text): nothing may accumulate from statement to statement
+	for _, st := range []string{
+		"SELECT mean(v) FROM m WHERE time > now() - 1h GROUP BY time(1m)",
+		"SELECT f(), g(h()) FROM m WHERE (((a > 1)))",
+		"SELECT v FROM (SELECT v FROM (SELECT v FROM m)) WHERE x = -y AND t < now()",
+		"SHOW TAG VALUES WITH KEY IN (a, b) WHERE c = now()",
+	} {
+		for _, k := range []int{127, 128, 129, 200, 300, 1025} {
+			sep := " ; "
+			if k%2 == 0 {
+				sep = ";"
+			}
+			text := strings.Repeat(st+sep, k-1) + st
+			emit(encStr(text), encStr(text))
+		}
+	}
 	for i := 0; i < n; i++ {
 		k := 1 + r.Intn(3)
 		var parts []string
@@ -255,7 +272,27 @@ func propNeutralStmt(args []string) string {
 	base, variant := ss[0], ss[1]
 	d1, err1 := queryDump(base)
 	if err1 != nil {
-		return "skip" // only accepted queries are judged
+		// "parses to exactly those statements": when every part between semicolons is a query of exactly one
+		// statement on its own, the whole text must be accepted too (round-3 seeded change C16-3: a counter kept
+		// on the parser leaked from statement to statement and rejected long batches)
+		if strings.Count(base, "'")+strings.Count(base, "\"")+strings.Count(base, "/") > 0 || strings.Contains(base, "--") {
+			return "skip"
+		}
+		n := 0
+		for _, part := range strings.Split(base, ";") {
+			if strings.TrimSpace(part) == "" {
+				continue
+			}
+			q, err := influxql.ParseQuery(part)
+			if err != nil || len(q.Statements) != 1 {
+				return "skip"
+			}
+			n++
+		}
+		if n == 0 {
+			return "skip"
+		}
+		return fmt.Sprintf("each of the %d statements of %.120q… parses alone, the query does not: %v", n, base, err1)
 	}
 	d2, err2 := queryDump(variant)
 	if err2 != nil {
